@@ -153,7 +153,18 @@ def psd_proj(input):
     return (v * w) @ v.conjugate().T
 
 
-@nb.vectorize  # pragma: no cover
+# Explicit signatures, real loops first: a lazily compiled ufunc resolves a call
+# against the loops it already has, so after one complex call real inputs
+# would be cast to, and returned as, complex.
+_thresh_signatures = [
+    "float32(float32, float32)",
+    "float64(float64, float64)",
+    "complex64(float32, complex64)",
+    "complex128(float64, complex128)",
+]
+
+
+@nb.vectorize(_thresh_signatures, cache=True)  # pragma: no cover
 def _soft_thresh(lamda, input):
     abs_input = abs(input)
     if abs_input == 0:
@@ -167,7 +178,7 @@ def _soft_thresh(lamda, input):
     return mag * sign
 
 
-@nb.vectorize  # pragma: no cover
+@nb.vectorize(_thresh_signatures, cache=True)  # pragma: no cover
 def _hard_thresh(lamda, input):
     abs_input = abs(input)
     if abs_input > lamda:
